@@ -37,7 +37,7 @@ def mutants(src, classes, spans, rnd, n):
     def sub(a, bb, ins=b""):
         return (b[:a] + ins + b[bb:]).decode("utf-8", "ignore")
     for _ in range(n):
-        k = rnd.randrange(12)
+        k = rnd.randrange(13)
         if k == 0:
             out.append(("truncate-byte", sub(rnd.randrange(len(b) + 1), len(b))))
         elif k == 1 and toks:
@@ -77,6 +77,18 @@ def mutants(src, classes, spans, rnd, n):
         elif k == 11 and toks:
             s, e = rnd.choice(toks)
             out.append(("replace-token", sub(s, e, rnd.choice(ATOMS).encode())))
+        elif k == 12 and toks:
+            # the rest of ONE line is lost (the line break and the following lines stay): the diagnostic starts at a line end
+            s, e = rnd.choice(toks)
+            nl = b.find(b"\n", e)
+            out.append(("cut-line-tail", sub(e, nl if nl >= 0 else len(b))))
+    # the line-ending dimension: a damaged file is as likely to have CRLF line endings / no final newline as a good one
+    for op, text in list(out):
+        r = rnd.randrange(4)
+        if r == 0:
+            out.append((op + "+crlf", text.replace("\r\n", "\n").replace("\n", "\r\n")))
+        elif r == 1 and text.endswith("\n"):
+            out.append((op + "+no-final-newline", text.rstrip("\n")))
     return out
 
 
